@@ -4,6 +4,8 @@ import JunoModel.C16.Model
 
 State-changing requests (answer = `Out` of the model step):
   cfg <retained> <l2PerPrune> <minAge 0|1> <legacy 0|1> <fixed 0|1>   reset to the empty node with this configuration
+  bulk <k>           the node after k stores on the empty database, in closed form
+  agg <w>            is the aggregated bloom filter of window w persisted (1/0)
   store | revert | writel1 <n> | evl1 <n> | evl2 <n> <within 0|1> | flush <k> | finish | fail | crash <seed 0|1> | sample <v>
 Observations:
   q <query> <n>      answer of the node about block n: ok | notfound | pruned | stale <m>
@@ -80,6 +82,15 @@ def stepLine (d : DSt) (line : String) : DSt × String :=
     | some r, some l, some m, some lg, some fx =>
       ({ cfg := { retained := r, l2PerPrune := l, minAge := m, legacy := lg, fixed := fx }, st := St.init }, "ok")
     | _, _, _, _, _ => (d, "bad-op")
+  | ["bulk", k] =>
+    -- the node after k stores on the empty database (Props.bulk_is_k_stores), in closed form
+    match nat? k with
+    | some k => if 0 < k then ({ d with st := { St.init with db := Db.bulk k } }, "ok") else (d, "bad-op")
+    | none => (d, "bad-op")
+  | ["agg", w] =>
+    match nat? w with
+    | some w => (d, if d.st.db.agg w then "1" else "0")
+    | none => (d, "bad-op")
   | ["store"] => doOp d .store
   | ["revert"] => doOp d .revert
   | ["writel1", n] => match u64? n with | some n => doOp d (.writeL1 n) | none => (d, "bad-op")
